@@ -1,0 +1,6 @@
+//go:build !verif
+// +build !verif
+
+package hap
+
+func verifYield(point string, payload []byte) {}
